@@ -106,7 +106,20 @@ pub fn run_cases(id: &str, cases: &[String], opts: &PoolOptions) -> Vec<String> 
             });
         }
     });
-    results.into_iter().map(|m| m.into_inner().unwrap().unwrap_or_else(|| "(missing)".into())).collect()
+    let mut out: Vec<String> = results.into_iter().map(|m| m.into_inner().unwrap().unwrap_or_else(|| "(missing)".into())).collect();
+    // A timeout on a busy machine is not a hang: re-run each timed-out case alone with a much longer
+    // limit before reporting it.
+    if opts.workers > 1 {
+        let again: Vec<usize> = (0..n).filter(|&i| out[i].starts_with("(timeout")).collect();
+        if !again.is_empty() && again.len() <= 50 {
+            let retry_opts = PoolOptions { workers: 1, timeout: opts.timeout * 6 };
+            for i in again {
+                let r = run_cases(id, &cases[i..i + 1], &retry_opts);
+                out[i] = r.into_iter().next().unwrap();
+            }
+        }
+    }
+    out
 }
 
 thread_local! {
